@@ -208,7 +208,7 @@ def gen_chain_problem(rng, g):
         cpos.append(rng.random() < 0.5)
         cond = [(keys[ch[i]], cpos[i])]
         if rng.random() < 0.15:
-            side = [j for j in range(n) if j not in (ch[i], ch[i + 1])]
+            side = [j for j in range(n) if j not in ch]
             if side:
                 cond.append((keys[rng.choice(side)], rng.random() < 0.5))
                 rng.shuffle(cond)
@@ -253,7 +253,7 @@ def gen_chain_base(rng, n, info):
     what depends on the first fluents of the chain)"""
     base = [rng.random() < 0.5 for _ in range(n)]
     for i in range(1, len(info["cpos"])):
-        if rng.random() < 0.6:
+        if rng.random() < 0.8:
             base[info["ch"][i]] = info["cpos"][i]
     for j, pos in info["false0"]:
         base[j] = not pos
@@ -261,16 +261,18 @@ def gen_chain_base(rng, n, info):
 
 
 def gen_chain_states(rng, n, info):
-    """2-4 states around a base state: every other state flips ONE fluent of the chain (mostly its source), now and
-    then a second fluent: whether a state is dominated is then decided by a single literal"""
+    """2-4 states around a base state: every other state flips ONE fluent -- mostly the source of the chain, else
+    any fluent (one outside the chain is irrelevant to the goal, a later one of the chain usually decides whether
+    the goal is reachable at all) --, now and then a second one: whether a state is dominated is then decided by a
+    single literal"""
     base = gen_chain_base(rng, n, info)
     out = [base]
     ch = info["ch"]
     for t in range(rng.choice([1, 1, 2, 2, 3])):
         s = list(base)
-        j = ch[0] if (t == 0 and rng.random() < 0.8) or rng.random() < 0.3 else rng.choice(ch[:-1])
+        j = ch[0] if rng.random() < (0.85 if t == 0 else 0.3) else rng.randrange(n)
         s[j] = not s[j]
-        if t > 0 and rng.random() < 0.3:
+        if t > 0 and rng.random() < 0.25:
             j = rng.randrange(n)
             s[j] = not s[j]
         if s not in out:
@@ -609,7 +611,7 @@ def make_jobs(ctx, n_explicit, n_contingent, n_dom_trials, n_chain=0, n_chain_co
         P, info = gen_chain_problem(ctx.rng, g)
         n = len(upj.keys_of(P))
         S = gen_chain_states(ctx.rng, n, info)
-        b = add(fam="explicit", P=P, inits=S, strat="chain")
+        b = add(fam="explicit", P=P, inits=S, strat="chain", chain=info)
         # the same states in the opposite order (of states the reduction ranks equal, the first is kept)
         if len(S) > 1:
             add(fam="explicit", P=P, inits=S[::-1], base=b["id"], variant="rev", strat="chain")
@@ -618,14 +620,19 @@ def make_jobs(ctx, n_explicit, n_contingent, n_dom_trials, n_chain=0, n_chain_co
         keys = upj.keys_of(P)
         base = gen_chain_base(ctx.rng, len(keys), info)
         P = dict(P, init=[{"f": k_[0], "args": [upj.OV(a) for a in k_[1]], "v": upj.BV(v)} for k_, v in zip(keys, base)])
-        add(fam="contingent", P=P, cons=gen_constraints(ctx.rng, len(keys), among=info["ch"][:-1]), strat="chain")
+        # hidden: the source of the chain, often together with 1-2 other fluents that are not the end of the chain
+        others = [j for j in range(len(keys)) if j not in (info["ch"][0], info["ch"][-1])]
+        pool = [info["ch"][0]]
+        if others and ctx.rng.random() < 0.6:
+            pool += ctx.rng.sample(others, min(len(others), ctx.rng.choice([1, 1, 2])))
+        add(fam="contingent", P=P, cons=gen_constraints(ctx.rng, len(keys), among=pool), strat="chain", chain=info)
     return jobs
 
 
 def run(ctx):
     q = ctx.quick
     n_explicit, n_contingent, n_dom = (50, 40, 2) if q else (250, 250, 3)
-    n_chain, n_chain_cont = (22, 8) if q else (120, 40)
+    n_chain, n_chain_cont = (22, 6) if q else (120, 40)
     jobs = make_jobs(ctx, n_explicit, n_contingent, n_dom, n_chain, n_chain_cont)
     with Pool(POOL, initializer=_warm) as pool:
         recs = pool.map(worker, jobs, chunksize=2)
